@@ -264,6 +264,17 @@ def run_check(prop, tier):
             rule="stage M: TLC exhaustive over the listed configurations (states/transitions); stage G: one behaviour per edge "
                  "of the bounded-hostility graphs plus -simulate behaviours; every behaviour is replayed into a real "
                  "ship.ShipConnection and judged by the TLC monitor pass")
+        if prop == "C11":
+            # hub level: the end of a connection object and the registry / notifications (HubApi.tla, MonHub.tla)
+            import check_hub
+            hr = check_hub.collect("C11", tier)
+            violations += hr["violations"]
+            known_hits.update(hr["known_hits"])
+            notes += hr["notes"]
+            coverage["hub_level"] = hr["coverage"]
+            coverage["states"] += hr["coverage"]["states"]
+            coverage["transitions"] += hr["coverage"]["transitions"]
+            coverage["traces_validated_against_impl"] += hr["coverage"]["traces_validated_against_impl"]
         vlib.write_evidence(prop, tier, "model_checking", coverage, time.time() - t0, len(violations),
                             assumptions=["handlers of one connection run one at a time (no intra-handler interleaving)",
                                          "harness fakes of the websocket writer and the hub behave like the real neighbours",
